@@ -258,6 +258,48 @@ def wl_big_crowded(ctx, rng, case):
     case.nontrivial = longest >= 20
 
 
+def wl_expand_sweep(ctx, rng, case):
+    """EVERY capacity from 1 to 96 (one case each; then the default-sized table), bucket sizes 1..4, every number of stored keys from 1 to 16
+    (and a few larger ones): the filter is expanded explicitly - and once more - and every key must still be reported afterwards"""
+    import probables as P
+
+    cap = case.index + 1 if case.index < 96 else 10000
+    counting = case.index % 2 == 1
+    cls = P.CountingCuckooFilter if counting else P.CuckooFilter
+    case.desc = {"capacity": cap, "cls": cls.__name__, "kind": "expansion sweep over capacity x bucket size x number of keys"}
+    rngscript.start([], fallback=_stdrandom.Random(rng.getrandbits(32)))
+    try:
+        for bsz in ((1, 2, 3, 4) if cap < 10000 else (4, 2)):
+            for n in list(range(1, 17)) + [24, 29, 48, 64]:
+                if n > cap * bsz:
+                    continue
+                f = cls(capacity=cap, bucket_size=bsz, max_swaps=50, auto_expand=False, expansion_rate=rng.choice([2, 2, 3]))
+                keys = [f"sw-{cap}-{bsz}-{n}-{i}" for i in range(n)]
+                stored = []
+                for kx in keys:
+                    try:
+                        f.add(kx)
+                        stored.append(kx)
+                    except Exception:
+                        pass
+                for rnd in range(2):
+                    try:
+                        f.expand()
+                    except Exception:
+                        ctx.count("sweep_expansions_refused")
+                    ctx.counters["oracle_evaluations"] += len(stored)
+                    missing = [kx for kx in stored if not f.check(kx)]
+                    if missing:
+                        ctx.fail(f"{len(missing)} of {len(stored)} stored keys are reported absent after explicit expansion #{rnd + 1} of a {cap}x{bsz} table",
+                                 first=missing[:3], capacity_now=f.capacity)
+                ctx.count("sweep_expansions_checked")
+        ctx.count("resolutions_executed")
+    finally:
+        rngscript.stop()
+    ctx.maximum("expand_sweep_max_capacity", cap)
+    case.nontrivial = True
+
+
 def wl_after_refusals(ctx, rng, case):
     """life goes on after refused calls: a crowded auto-expanding table whose expansions are refused (non-growing rate, or too few swaps), with
     keys added more than once; then the rate is raised, most keys are removed again completely, the table is expanded explicitly and refilled.
@@ -406,6 +448,7 @@ PROP = Prop(
         Workload("long", wl_long, quick=60, thorough=3000),
         Workload("crowd", wl_crowd, quick=16, thorough=320),
         Workload("big_crowded", wl_big_crowded, quick=12, thorough=120),
+        Workload("expand_sweep", wl_expand_sweep, quick=97, thorough=97),
         Workload("after_refusals", wl_after_refusals, quick=100, thorough=1500),
     ],
     assumptions=["fingerprint model uses an independent FNV-1a (ASCII/bytes keys); keys whose raw fingerprint is 0 (the empty-slot marker) appear only in the zero_fingerprint workload, whose histories contain no removals (how 0 is remapped is the library's choice)",
